@@ -171,7 +171,7 @@ def evaluate(case):
                     raise C.MachineryError("recording not deterministic: %s" % d)
                 events = rec["events"]
                 faults = ["kill", "EXDEV", "EIO", "ENOSPC"] + (["EPERM", "EACCES"] if case["tier"] == "thorough" else [])
-                plan = [(k, f) for k in range(len(events)) for f in faults]
+                plan = [(k, f) for k in range(len(events)) for f in faults if not S.impossible_fault(events, k, f)]
                 if case.get("only"):
                     plan = [tuple(case["only"])]
                 for k, f in plan:
